@@ -8,6 +8,7 @@
 package main
 
 import (
+	"bytes"
 	"encoding/json"
 	"fmt"
 	"strconv"
@@ -35,8 +36,9 @@ type addIn struct {
 }
 
 type opIn struct {
-	Add  *addIn `json:"add,omitempty"`
-	Poll *int   `json:"poll,omitempty"`
+	Add     *addIn `json:"add,omitempty"`
+	Poll    *int   `json:"poll,omitempty"`
+	Restart bool   `json:"restart,omitempty"` // snapd restarts: last checkpoint payload -> state.ReadState
 }
 
 type in struct {
@@ -59,7 +61,17 @@ type obsOut struct {
 	Add  *onotice  `json:"add,omitempty"`
 	Err  bool      `json:"err,omitempty"`
 	Poll []onotice `json:"poll,omitempty"`
+	N    int       `json:"n,omitempty"` // restart: notices in the reloaded state
 }
+
+// the state backend: keeps the last checkpoint payload, as overlordStateBackend writes it to state.json
+type cpBackend struct{ data []byte }
+
+func (b *cpBackend) Checkpoint(data []byte) error {
+	b.data = append([]byte(nil), data...)
+	return nil
+}
+func (b *cpBackend) EnsureBefore(time.Duration) {}
 
 // ---------------------------------------------------------------- Coq rendering
 
@@ -145,9 +157,10 @@ func observe(n *state.Notice, base time.Time) (onotice, time.Time) {
 func exec(h in) vh.Out {
 	// expiry uses the real wall clock (7 days): keep every mocked instant within hours of now
 	base := time.Now().UTC().Truncate(time.Second)
-	st := state.New(nil)
+	backend := &cpBackend{}
+	st := state.New(backend)
 	st.Lock()
-	defer st.Unlock()
+	defer func() { st.Unlock() }()
 
 	cursors := make([]time.Time, len(h.Clients))
 	for i, f := range h.Clients {
@@ -241,6 +254,23 @@ func exec(h in) vh.Out {
 			}
 			observed = append(observed, obsOut{Op: "poll", Poll: out})
 			coqObs = append(coqObs, "BPoll "+vh.CoqList(items))
+		case op.Restart:
+			coqOps = append(coqOps, "ORestart")
+			tags["restart"] = true
+			st.Unlock() // writes the checkpoint if the state was modified
+			if backend.data == nil {
+				st = state.New(backend)
+			} else {
+				nst, err := state.ReadState(backend, bytes.NewReader(backend.data))
+				if err != nil {
+					panic(err)
+				}
+				st = nst
+			}
+			st.Lock()
+			n := len(st.Notices(nil))
+			observed = append(observed, obsOut{Op: "restart", N: n})
+			coqObs = append(coqObs, "BRestart "+vh.CoqN(uint64(n)))
 		default:
 			panic("empty op")
 		}
@@ -340,6 +370,13 @@ func genHistory(r *vh.Rand) in {
 			h.Ops = append(h.Ops, opIn{Poll: &c})
 			continue
 		}
+		if r.Chance(1, 7) {
+			h.Ops = append(h.Ops, opIn{Restart: true})
+			if r.Chance(1, 2) { // the wall clock does not advance, or steps back, across the restart
+				clock -= int64(r.Range(0, 8)) * unit
+			}
+			continue
+		}
 		switch r.Intn(8) {
 		case 0, 1, 2: // same tick
 		case 3: // backwards
@@ -385,6 +422,7 @@ func genHistory(r *vh.Rand) in {
 func enumHistories(maxLen int) []in {
 	clients := []filterIn{{Types: []string{}, Keys: []string{}}, {User: u32(1000), Types: []string{}, Keys: []string{"a"}}}
 	type step struct {
+		restart bool
 		poll  int
 		delta int64
 		user  *uint32
@@ -398,6 +436,7 @@ func enumHistories(maxLen int) []in {
 		{poll: -1, delta: 1, key: "a", ra: 10},
 		{poll: 0},
 		{poll: 1},
+		{restart: true, poll: -1},
 	}
 	var out []in
 	var rec func(prefix []int)
@@ -407,7 +446,9 @@ func enumHistories(maxLen int) []in {
 			clock := int64(100)
 			for _, k := range prefix {
 				s := alpha[k]
-				if s.poll >= 0 {
+				if s.restart {
+					h.Ops = append(h.Ops, opIn{Restart: true})
+				} else if s.poll >= 0 {
 					p := s.poll
 					h.Ops = append(h.Ops, opIn{Poll: &p})
 				} else {
@@ -442,6 +483,24 @@ func gen(r *vh.Rand, tier string, n int) []in {
 		{Add: &addIn{Clock: 20, Type: "warning", Key: "b", Time: i64(5)}},
 		{Poll: &p0},
 	}})
+	// restarts: same-tick additions, a poll, a restart, then additions while the clock has not passed the cursor
+	// (same coarse tick / clock stepped back across the reboot); with and without a second restart and a repeat
+	for _, after := range []int64{100, 50, 101} {
+		ins = append(ins, in{Clients: []filterIn{{Types: []string{}, Keys: []string{}}, {User: u32(1000), Types: []string{}, Keys: []string{}}}, Ops: []opIn{
+			{Add: &addIn{Clock: 100, Type: "warning", Key: "a"}},
+			{Add: &addIn{Clock: 100, Type: "warning", Key: "b", User: u32(1000)}},
+			{Add: &addIn{Clock: 100, Type: "warning", Key: "a"}},
+			{Poll: &p0},
+			{Restart: true},
+			{Add: &addIn{Clock: after, Type: "change-update", Key: "c d"}},
+			{Poll: &p0},
+			{Restart: true},
+			{Restart: true},
+			{Add: &addIn{Clock: after, Type: "warning", Key: "b", User: u32(1000)}},
+			{Poll: &p0},
+			{Poll: &p0},
+		}})
+	}
 	if n <= 0 {
 		n = 400
 	}
